@@ -16,6 +16,7 @@ func init() { register("C09", checkC09) }
 
 func genC09(t *rapid.T) *Case {
 	p := carrierProfile()
+	p.CommaURLs = true
 	mode := rapid.IntRange(0, 2).Draw(t, "c09mode")
 	if mode == 0 {
 		// word-count sub-domain: no title, no tables, no figures
@@ -31,6 +32,13 @@ func genC09(t *rapid.T) *Case {
 			return out
 		}
 		p.Top, p.Core, p.Nested = strip(p.Top), strip(p.Core), strip(p.Nested)
+		// short pages with "unlikely" marked blocks: the second extraction pass is then the one that counts
+		p.Top = append(p.Top, wc{"unlikely", 12})
+		p.Core = append(p.Core, wc{"unlikely", 10})
+		if rapid.Bool().Draw(t, "short") {
+			p.MaxTop = 4
+			p.LenMix = [3]int{45, 40, 15}
+		}
 	} else {
 		media := []wc{{"figure", 8}, {"img", 8}, {"picture", 5}, {"lazy", 3}, {"dtable", 8}, {"inlineimg", 4}}
 		p.Top = append(append([]wc{}, p.Top...), media...)
